@@ -8,6 +8,7 @@ mod node;
 mod rng;
 mod t1;
 mod t3;
+mod t4;
 mod t5;
 mod t7;
 mod t8;
